@@ -170,7 +170,7 @@ func TestFunctionDocCases(t *testing.T) {
 			t.Errorf("%s: expected ErrExec, got %v", expr, err)
 		}
 	}
-	for _, expr := range []string{"nosuchfunction(1)", "CASE WHEN 1 THEN 2 END", "1 BETWEEN 0 AND 2", "CAST(1 AS String)", "count() OVER ()"} {
+	for _, expr := range []string{"nosuchfunction(1)", "CASE WHEN 1 THEN 2 END", "1 BETWEEN 0 AND 2", "count() OVER ()"} {
 		if _, err := evalOne(t, db, expr); !errors.Is(err, ErrUnsupported) {
 			t.Errorf("%s: expected ErrUnsupported, got %v", expr, err)
 		}
@@ -416,5 +416,79 @@ func TestNullableAggregates(t *testing.T) {
 		if got := rowsString(res); got != c.want {
 			t.Errorf("%s\n  got  %s\n  want %s", c.sql, got, c.want)
 		}
+	}
+}
+
+// Functions that have both an ordinary call form and an SQL special syntax (docs: String
+// functions / Functions for searching in strings / Type conversion: CAST).
+func TestSpecialSyntaxFunctions(t *testing.T) {
+	db := NewDB()
+	for _, c := range []struct{ expr, want string }{
+		// position
+		{"position('Hello, world!', '!')", "13"}, {"position('Hello, world!', 'o', 1)", "5"}, {"position('Hello, world!', 'o', 7)", "9"},
+		{"position('abc', 'zz')", "0"}, {"POSITION('bar' IN 'foobar')", "4"}, {"position('l' IN 'Hello')", "3"}, {"Position('Hello', 'l')", "3"},
+		{"position('abc', '')", "1"}, {"position('abc', '', 4)", "4"}, {"position('abc', '', 5)", "0"}, {"position('abc', 'c', 10)", "0"},
+		{"position('val ERROR x', 'ERROR') > 0", "1"}, {"position('Привет', 'т')", "11"}, {"positionUTF8('Привет', 'т')", "6"},
+		{"positionCaseInsensitive('Hello', 'LL')", "3"}, {"position('Hello', 'LL')", "0"}, {"positionCaseInsensitiveUTF8('ПРИВЕТ', 'вет')", "4"},
+		// substring / substr / mid
+		{"substring('database', 5)", "'base'"}, {"substr('database', 5, 1)", "'b'"}, {"mid('database', 1, 4)", "'data'"}, {"SUBSTRING('database' FROM 5 FOR 2)", "'ba'"},
+		{"SUBSTRING('database' FROM 5)", "'base'"}, {"substring('abc', 0)", "''"}, {"substring('abc', -2)", "'bc'"}, {"substring('abc', -2, 1)", "'b'"}, {"substring('abc', 2, 100)", "'bc'"},
+		{"substring('abc', 10)", "''"}, {"substringUTF8('Привет', 2, 3)", "'рив'"}, {"SUBSTR('abc', 2)", "'bc'"},
+		// left / right
+		{"left('Hello', 3)", "'Hel'"}, {"left('Hello', -3)", "'He'"}, {"left('Hello', 0)", "''"}, {"left('Hello', 10)", "'Hello'"},
+		{"right('Hello', 3)", "'llo'"}, {"right('Hello', -3)", "'lo'"}, {"leftUTF8('Привет', 4)", "'Прив'"}, {"rightUTF8('Привет', 2)", "'ет'"}, {"LEFT('abc', 1)", "'a'"},
+		// trim
+		{"trimBoth('     Hello, world!     ')", "'Hello, world!'"}, {"trimLeft('  x ')", "'x '"}, {"trimRight('  x ')", "'  x'"}, {"trim('  x ')", "'x'"}, {"ltrim('  x')", "'x'"}, {"rtrim('x  ')", "'x'"},
+		{"trim(BOTH ' ()' FROM '(   Hello, world!   )')", "'Hello, world!'"}, {"trim(LEADING 'x' FROM 'xxaxx')", "'axx'"}, {"TRIM(TRAILING 'x' FROM 'xxaxx')", "'xxa'"}, {"trimBoth('\\tx')", "'\\x09x'"},
+		// CAST
+		{"CAST('42' AS UInt64) + 1", "43"}, {"CAST(42, 'String')", "'42'"}, {"cast(1.9 AS UInt8)", "1"}, {"CAST('2023-11-14' AS Date)", "2023-11-14"}, {"CAST(3 AS Float64) / 2", "1.5"},
+		// extract (regexp)
+		{"extract('number: 1, number: 2', '\\\\d+')", "'1'"}, {"extract('key=val', '(\\\\w+)=')", "'key'"}, {"extract('abc', 'x')", "''"},
+		// misc
+		{"startsWith('Spider-Man', 'Spi')", "1"}, {"endsWith('Spider-Man', 'Spi')", "0"}, {"replaceAll('Hello, Hello', 'Hello', 'Bye')", "'Bye, Bye'"}, {"replaceOne('Hello, Hello', 'Hello', 'Bye')", "'Bye, Hello'"}, {"replace('aa', 'a', 'b')", "'bb'"},
+	} {
+		v, err := evalOne(t, db, c.expr)
+		if err != nil {
+			t.Errorf("%s: %v", c.expr, err)
+			continue
+		}
+		if got := show(v); got != c.want {
+			t.Errorf("%s = %s, want %s", c.expr, got, c.want)
+		}
+	}
+	for _, expr := range []string{"EXTRACT(YEAR FROM toDate('2023-11-14'))", "locate('a', 'b')", "DATE_ADD(DAY, 1, toDate('2023-11-14'))", "EXISTS(SELECT 1)", "substring('abc', 1, -1)", "CAST(1 AS Nullable(String))"} {
+		if _, err := evalOne(t, db, expr); !errors.Is(err, ErrUnsupported) {
+			t.Errorf("%s: expected ErrUnsupported, got %v", expr, err)
+		}
+	}
+	for _, expr := range []string{"position('a')", "position(1, 'a')", "substring('a')", "CAST(1)", "left('a')", "CAST('x' AS UInt8)"} {
+		if _, err := evalOne(t, db, expr); !errors.Is(err, ErrExec) && !errors.Is(err, ErrSyntax) {
+			t.Errorf("%s: expected rejection, got %v", expr, err)
+		}
+	}
+	// in a statement, as a planner would render it
+	db2 := testDB()
+	res, err := db2.Query("SELECT k, position(s, 'y') as p FROM t WHERE position(s,'x') == 0 AND POSITION('y' IN s) > 0 ORDER BY ts")
+	if err != nil || rowsString(res) != "'a',1" {
+		t.Errorf("position in WHERE: %v %v", res, err)
+	}
+}
+
+// DB.NewAnalyzer: HAVING without GROUP BY / aggregates is a row filter that sees aliases.
+func TestNewAnalyzerHaving(t *testing.T) {
+	db := testDB()
+	q := "SELECT y.1 as k, y.2 as value FROM (SELECT groupArray((k, v)) as g FROM t WHERE v > 0) array JOIN g as y HAVING (value) > (2.000000) ORDER BY value"
+	if _, err := db.Query(q); !errors.Is(err, ErrUnsupported) {
+		t.Fatalf("default: expected ErrUnsupported, got %v", err)
+	}
+	db.NewAnalyzer = true
+	res, err := db.Query(q)
+	if err != nil || rowsString(res) != "'a',3 | 'b',5 | 'b',7" {
+		t.Fatalf("NewAnalyzer: %v %v", res, err)
+	}
+	// with aggregation nothing changes
+	res, err = db.Query("SELECT k FROM t GROUP BY k HAVING sum(v) > 4 ORDER BY k")
+	if err != nil || rowsString(res) != "'b'" {
+		t.Fatalf("%v %v", res, err)
 	}
 }
